@@ -31,7 +31,7 @@ def _is_ident(v):
     return v.k == 'ext' and v.a[0] == 'threading.get_ident'
 
 
-@rule('T1', floor=1, title='transaction begins by taking the write lock (BEGIN IMMEDIATE/EXCLUSIVE)')
+@rule('T1', floor=1, title='transaction begins by taking the write lock and nothing more (BEGIN IMMEDIATE)')
 def t1(ctx):
     f = _mgr(ctx)
     obs = []
@@ -42,9 +42,14 @@ def t1(ctx):
                 continue
             seen.add(ev.line)
             mode = ev.d['stmt'].begin_mode
-            obs.append(Ob('T1', 'begin-mode', mode in ('IMMEDIATE', 'EXCLUSIVE'),
-                          'BEGIN mode is %s; a deferred BEGIN lets two read-modify-write operations both pass '
-                          'their SELECT before either takes the write lock' % mode, f.loc(ev.node)))
+            obs.append(Ob('T1', 'begin-mode', mode == 'IMMEDIATE',
+                          'BEGIN mode is %s; %s' % (mode, 'a deferred BEGIN lets two read-modify-write operations both '
+                                                    'pass their SELECT before either takes the write lock'
+                                                    if mode != 'EXCLUSIVE' else
+                                                    'an exclusive BEGIN also locks out readers whenever the journal mode '
+                                                    'is not WAL (sqlite_journal_mode is a supported setting): lookups '
+                                                    'during a transaction fail with a raw OperationalError although '
+                                                    'reads are promised to stay possible'), f.loc(ev.node)))
     # every path that reaches the yield without joining must have executed a BEGIN through a SQL executor
     return obs
 
